@@ -28,7 +28,7 @@ from pyvc.concretize import Decoder  # noqa: E402
 from pyvc.contracts import REG, Contract, verify_function  # noqa: E402
 from pyvc.source import Repo  # noqa: E402
 
-CONTRACT_MODULES = ["contracts.validation", "contracts.declaration", "contracts.formatting", "contracts.generation", "contracts.substitution", "contracts.combinators", "contracts.equality", "contracts.custom", "contracts.representation"]
+CONTRACT_MODULES = ["contracts.validation", "contracts.declaration", "contracts.formatting", "contracts.generation", "contracts.substitution", "contracts.combinators", "contracts.equality", "contracts.custom", "contracts.representation", "contracts.regexgen"]
 NATIVE_PY = os.environ.get("PYVC_NATIVE_PY", "/venv/bin/python")
 REPLAY_DIR = os.path.join(HERE, "replays")
 EVID_DIR = os.path.join(HERE, "evidence")
@@ -103,8 +103,20 @@ def work(task: Tuple[str, str, str, List[str], str]) -> Dict[str, Any]:
         todo = [ob for ob in fr.obligations
                 if ob.kind == "cover" or not ob.prop_ids or prop in ob.prop_ids]
 
+        failed_before = [0]
+
         def do(ob) -> Dict[str, Any]:
-            v = solve.discharge(ob, base, second_opinion=(tier == "thorough"))
+            # the first obligation of this function (shard) that fails gets the full budget, a counter-model and its
+            # replays; later ones only the short tries (a failing obligation costs minutes, a function under a breaking
+            # change has many)
+            solve.SHORT_BUDGET = failed_before[0] > 0 and ob.kind != "cover"
+            solve.SHORT_MAX_MS = 8000 if failed_before[0] < 3 else 3000
+            try:
+                v = solve.discharge(ob, base, second_opinion=(tier == "thorough"))
+            finally:
+                solve.SHORT_BUDGET = False
+            if v.status not in (solve.PROVED, solve.COVERED):
+                failed_before[0] += 1
             rec = {"name": v.name, "kind": v.kind, "status": v.status, "backend": v.backend,
                    "time_s": round(v.time_s, 3), "text": v.text, "props": list(v.prop_ids),
                    "reason": v.reason, "solver_output": v.solver_output}
@@ -165,21 +177,40 @@ def work_canary(repo, ct, relpath: str, spec: str, prop: str, out: Dict[str, Any
         out["canary"] = "skipped: the function's source changed since the canary was recorded"
         out["wall_s"] = round(time.time() - t0, 3)
         return out
-    m, desc = mutants.mutant(info, int(k))
     con = REG.contracts[(relpath, qualname)]
-    fr = verify_function(repo, ct, REG, con, mutate=lambda i: m)
+    only = None
+    if str(k).startswith("region:"):
+        # the obligations a listed known finding excludes must FAIL when the exclusion is switched off: shows that the
+        # clause (e.g. non-interference under a different hash seed) is not vacuous on the real, unmutated code
+        _, rid_, only = str(k).split(":", 2)
+        desc = f"known-finding region {rid_} switched off: `{only}` must not be provable"
+        saved = set(getattr(REG, "active_regions", set()))
+        REG.active_regions = saved - {rid_}
+        try:
+            fr = verify_function(repo, ct, REG, con)
+        finally:
+            REG.active_regions = saved
+    else:
+        m, desc = mutants.mutant(info, int(k))
+        fr = verify_function(repo, ct, REG, con, mutate=lambda i: m)
     base = fr.ex.base + fr.ex.extra_axioms
     killed = None
     if fr.unsupported:
         killed = "unsupported: " + fr.unsupported
     else:
-        for ob in fr.obligations:
-            if ob.kind == "cover" or (ob.prop_ids and prop not in ob.prop_ids):
-                continue
-            v = solve.discharge(ob, base, use_cvc5=False)
-            if v.status != solve.PROVED:
-                killed = ob.name
-                break
+        solve.SHORT_BUDGET = True
+        try:
+            for ob in fr.obligations:
+                if ob.kind == "cover" or (ob.prop_ids and prop not in ob.prop_ids):
+                    continue
+                if only is not None and only not in ob.name:
+                    continue
+                v = solve.discharge(ob, base, use_cvc5=False)
+                if v.status != solve.PROVED:
+                    killed = ob.name
+                    break
+        finally:
+            solve.SHORT_BUDGET = False
     out["canary"] = ("killed: " + killed) if killed else "SURVIVED"
     out["canary_desc"] = desc
     out["wall_s"] = round(time.time() - t0, 3)
@@ -279,6 +310,19 @@ def try_replays(ex, ct, con: Contract, fr, ob, v, prop: str) -> List[Dict[str, A
     return res
 
 
+def combined_sha(repo, res: Dict[str, Any], key: str = "relpath") -> str:
+    """hash of the verified function's source and of every repository function the executor inlined into it"""
+    import hashlib
+    h = hashlib.sha256((res.get("sha256") or "").encode())
+    for name in sorted(res.get("inlined") or []):
+        try:
+            rp, qn = name.split(":", 1)
+            h.update(repo.func(rp, qn).sha256.encode())
+        except Exception:
+            h.update(name.encode())
+    return h.hexdigest()
+
+
 # ------------------------------------------------------------------------------------- main
 def run_check(prop: str, tier: str) -> int:
     t0 = time.time()
@@ -314,6 +358,7 @@ def run_check(prop: str, tier: str) -> int:
 
     baseline = json.load(open(BASELINE)) if os.path.exists(BASELINE) else {}
     base_proved = set(baseline.get(prop, []))
+    base_sha = {tuple(k.split("|", 1)): h for k, h in (baseline.get("_sha", {}).get(prop, {}) or {}).items()}
     violations: List[Tuple[str, str, bool]] = []   # (obligation, replay path, has_input)
     undecided: List[str] = []
     errors: List[str] = []
@@ -362,7 +407,10 @@ def run_check(prop: str, tier: str) -> int:
             reps = v.get("replays") or []
             confirmed = [r for r in reps if r["native"].get("reproduced")]
             fkey = (res["relpath"], res["qualname"])
-            if not confirmed and v["status"] in (solve.REFUTED, solve.CANDIDATE) and res["relpath"] != "<lemma>":
+            # the function (or something inlined into it) differs from the tree the baseline was recorded on
+            changed = fkey in base_sha and base_sha[fkey] != combined_sha(repo, res)
+            failing = v["status"] in (solve.REFUTED, solve.CANDIDATE) or (v["name"] in base_proved and changed)
+            if not confirmed and failing and res["relpath"] != "<lemma>":
                 # refutation fallback: one bounded native search per function
                 if fkey not in search_cache:
                     sp = {"oracle": (reps[0].get("oracle") if reps else prop) or prop,
@@ -381,10 +429,13 @@ def run_check(prop: str, tier: str) -> int:
             if confirmed:
                 path = write_replay(prop, confirmed[0])
                 violations.append((v["name"], path, True))
-            elif v["status"] in (solve.REFUTED, solve.CANDIDATE) and v["name"] in base_proved:
-                spec = reps[0] if reps else {"property": prop, "obligation": v["name"], "clause": v["text"]}
-                spec["note"] = "no-failing-input-found: obligation was PROVED on the pristine tree"
-                spec["solver_output"] = v.get("solver_output") or v["status"]
+            elif failing and v["name"] in base_proved:
+                spec = reps[0] if reps else {"property": prop, "obligation": v["name"], "clause": v["text"],
+                                             "function": f"{res['relpath']}:{res['qualname']}"}
+                spec["note"] = ("no-failing-input-found: obligation was PROVED on the pristine tree"
+                                + ("" if v["status"] != solve.UNDECIDED else
+                                   "; the function's source changed and the solver no longer decides it"))
+                spec["solver_output"] = v.get("solver_output") or (v["status"] + " " + str(v.get("reason", "")))
                 path = write_replay(prop, spec)
                 violations.append((v["name"], path, False))
             else:
@@ -442,6 +493,8 @@ def run_check(prop: str, tier: str) -> int:
         json.dump(ev, f, indent=1)
     if os.environ.get("PYVC_WRITE_BASELINE") == "1":
         baseline[prop] = sorted(proved_names)
+        baseline.setdefault("_sha", {})[prop] = {f"{f['file']}|{f['qualname']}": combined_sha(repo, f, key="file")
+                                                 for f in funcs if f["file"] != "<lemma>"}
         with open(BASELINE, "w") as f:
             json.dump(baseline, f, indent=0)
     print(f"{prop}: obligations={n_obl} discharged={n_dis} undecided={len(undecided)} "
